@@ -23,6 +23,14 @@ def comp_members_nonconst(s, type_name):
     return out
 
 
+def count_groups(lv):
+    return sum(1 + count_groups(g) for g in lv.groups)
+
+
+def has_data(lv):
+    return bool(lv.data) or any(has_data(g) for g in lv.groups)
+
+
 def is_flat(g):
     return not g.groups and not g.data
 
@@ -193,6 +201,9 @@ class DriverGen:
             out.append("        if(cur == \"%s\") { ::%s::messages::%s<char> m{p, n};" % (m.name, s.package, m.name))
             out.append("          if(a[0] == \"size\") res = std::to_string(static_cast<unsigned long long>(sbepp::size_bytes(m)));")
             out.append("          else if(a[0] == \"fillhdr\") { auto h = sbepp::fill_message_header(m); res = (sbepp::addressof(h) == sbepp::addressof(m)) ? \"ok\" : \"ERRHDRVIEW\"; }")
+            ng = count_groups(m)
+            args = ", ".join(["static_cast<decltype(mh::arg_type<%d>(&sbepp::message_traits<::%s::schema::messages::%s>::size_bytes))>(std::strtoull(a[%d].c_str(), nullptr, 10))" % (i, s.package, m.name, i + 1) for i in range(ng + (1 if has_data(m) else 0))])
+            out.append("          else if(a[0] == \"traitsize\") res = std::to_string(static_cast<unsigned long long>(sbepp::message_traits<::%s::schema::messages::%s>::size_bytes(%s)));" % (s.package, m.name, args))
             out.append("#ifdef MSGDRV_CURSOR")
             out.append("          else if(a[0] == \"ctrav\") { mh::rec_visitor rv(c.base, a.size() > 1 ? std::atol(a[1].c_str()) : -1); auto cur = sbepp::init_cursor(m);")
             out.append("            sbepp::visit(m, cur, rv); std::string ev = rv.os.str(); if(!ev.empty() && ev.back() == ' ') ev.pop_back();")
